@@ -207,3 +207,121 @@ Proof.
   assert (Lt : pt S u k i < S) by (apply pt_lt_S; [exact HS|exact Hk|exact U1|lia]).
   apply sus_pick_total; [exact Hs|]. rewrite <- ES. lra.
 Qed.
+
+(* ---------- totality: lexicase family and selTournamentDCD ---------- *)
+From DV Require Import Proofs.C06_Lexicase Proofs.C06_DCD.
+
+Lemma shuffle_total {A} (l : list A) p rest :
+  is_perm p (length l) = true -> shuffle l (DShuffle p :: rest) = Ok (pick l p) rest.
+Proof. intro H. unfold shuffle. rewrite H. reflexivity. Qed.
+
+(* a round log: a permutation of the cases, then the index of the winner among the survivors *)
+Definition lex_round_ok (step : nat -> list ind -> list ind) (w : list Q) (inds : list ind)
+           (pi : list nat * nat) : Prop :=
+  match inds with
+  | [] => False
+  | x0 :: _ =>
+      let m := length (values w x0) in
+      is_perm (fst pi) m = true /\
+      (snd pi < length (lex_filter step (pick (seq 0 m) (fst pi)) inds))%nat
+  end.
+
+Definition lex_round_draws (step : nat -> list ind -> list ind) (w : list Q) (inds : list ind)
+           (pi : list nat * nat) : list draw :=
+  match inds with
+  | [] => []
+  | x0 :: _ =>
+      let m := length (values w x0) in
+      [DShuffle (fst pi); DChoice (length (lex_filter step (pick (seq 0 m) (fst pi)) inds)) (snd pi)]
+  end.
+
+Lemma lexicase_gen_total step w inds (rounds : list (list nat * nat)) rest :
+  Forall (lex_round_ok step w inds) rounds ->
+  exists out, lexicase_gen step w inds (length rounds)
+                (concat (map (lex_round_draws step w inds) rounds) ++ rest) = Ok out rest.
+Proof.
+  intro F. unfold lexicase_gen.
+  rewrite <- (map_length (lex_round_draws step w inds) rounds).
+  apply repeatM_total. intros seg Hseg r.
+  apply in_map_iff in Hseg as (pi & <- & Hpi). eapply Forall_forall in F; [|exact Hpi].
+  unfold lex_round_ok, lex_round_draws in *. destruct inds as [|x0 tl]; [contradiction|].
+  destruct F as [P L]. cbn [app]. unfold bind.
+  rewrite shuffle_total by (rewrite seq_length; exact P).
+  set (sv := lex_filter step (pick (seq 0 (length (values w x0))) (fst pi)) (x0 :: tl)) in *.
+  destruct (nth_error sv (snd pi)) eqn:E; [|apply nth_error_None in E; lia].
+  exists i. apply choice_total. exact E.
+Qed.
+
+Definition all_random (ds : list draw) : Prop :=
+  Forall (fun d => exists u, d = DRandom u /\ 0 <= u /\ u < 1) ds.
+
+Lemma tourn_total x y ds : all_random ds -> (1 <= length ds)%nat ->
+  exists z rest, tourn x y ds = Ok z rest /\ all_random rest /\ (length ds <= length rest + 1)%nat.
+Proof.
+  intros R L. unfold tourn.
+  destruct (dominates x y); [exists x, ds; repeat split; [exact R|lia]|].
+  destruct (dominates y x); [exists y, ds; repeat split; [exact R|lia]|].
+  destruct (cd_lt (cd x) (cd y)); [exists y, ds; repeat split; [exact R|lia]|].
+  destruct (cd_lt (cd y) (cd x)); [exists x, ds; repeat split; [exact R|lia]|].
+  destruct ds as [|d ds]; [cbn in L; lia|]. inversion R as [|? ? (u & -> & U0 & U1) R']; subst.
+  unfold bind. rewrite (random01_total u ds U0 U1). unfold ret.
+  eexists _, ds. repeat split; [exact R'|cbn; lia].
+Qed.
+
+Lemma tourn_at_total l i j ds : (i < length l)%nat -> (j < length l)%nat ->
+  all_random ds -> (1 <= length ds)%nat ->
+  exists z rest, tourn_at l i j ds = Ok z rest /\ all_random rest /\ (length ds <= length rest + 1)%nat.
+Proof.
+  intros Hi Hj R L. unfold tourn_at.
+  destruct (nth_error l i) eqn:E1; [|apply nth_error_None in E1; lia].
+  destruct (nth_error l j) eqn:E2; [|apply nth_error_None in E2; lia].
+  apply tourn_total; assumption.
+Qed.
+
+Lemma dcd_loop_total l1 l2 it : forall i ds,
+  (i + 4 * it <= length l1)%nat -> (i + 4 * it <= length l2)%nat ->
+  all_random ds -> (4 * it <= length ds)%nat ->
+  exists out rest, dcd_loop it i l1 l2 ds = Ok out rest /\ all_random rest.
+Proof.
+  induction it as [|it IH]; intros i ds H1 H2 R L; cbn [dcd_loop].
+  - exists [], ds. split; [reflexivity|exact R].
+  - destruct (tourn_at_total l1 i (i + 1) ds ltac:(lia) ltac:(lia) R ltac:(lia)) as (a & d1 & Ea & R1 & L1).
+    destruct (tourn_at_total l1 (i + 2) (i + 3) d1 ltac:(lia) ltac:(lia) R1 ltac:(lia)) as (b & d2 & Eb & R2 & L2).
+    destruct (tourn_at_total l2 i (i + 1) d2 ltac:(lia) ltac:(lia) R2 ltac:(lia)) as (c & d3 & Ec & R3 & L3).
+    destruct (tourn_at_total l2 (i + 2) (i + 3) d3 ltac:(lia) ltac:(lia) R3 ltac:(lia)) as (d & d4 & Ed & R4 & L4).
+    destruct (IH (i + 4)%nat d4 ltac:(lia) ltac:(lia) R4 ltac:(lia)) as (r & d5 & Er & R5).
+    exists (a :: b :: c :: d :: r), d5. split; [|exact R5].
+    unfold bind. rewrite Ea, Eb, Ec, Ed, Er. reflexivity.
+Qed.
+
+Definition sample_ok (n : nat) (idx : list nat) : Prop :=
+  length idx = n /\ nodupb idx = true /\ forallb (fun i => Nat.ltb i n) idx = true.
+
+Lemma sample_total {A} (l : list A) idx rest :
+  sample_ok (length l) idx -> sample l (length l) (DSample (length l) idx :: rest) = Ok (pick l idx) rest.
+Proof.
+  intros (L & N & F). unfold sample. rewrite Nat.eqb_refl, L, Nat.eqb_refl, N, F. reflexivity.
+Qed.
+
+Lemma selTournamentDCD_total inds k idx1 idx2 ds :
+  (k <= length inds)%nat -> (k mod 4 = 0)%nat ->
+  sample_ok (length inds) idx1 -> sample_ok (length inds) idx2 ->
+  all_random ds -> (k <= length ds)%nat ->
+  exists out rest,
+    selTournamentDCD inds k (DSample (length inds) idx1 :: DSample (length inds) idx2 :: ds) = Ok out rest.
+Proof.
+  intros Hk K4 S1 S2 R L. unfold selTournamentDCD.
+  assert (E1 : Nat.ltb (length inds) k = false) by (apply Nat.ltb_ge; exact Hk). rewrite E1.
+  rewrite K4. cbn [Nat.eqb negb]. rewrite andb_false_r.
+  unfold bind. rewrite (sample_total inds idx1 _ S1), (sample_total inds idx2 _ S2).
+  assert (Eit : ((k + 3) / 4 = k / 4)%nat).
+  { pose proof (Nat.div_mod k 4 ltac:(lia)) as D. rewrite K4 in D.
+    symmetry. apply (Nat.div_unique (k + 3) 4 (k / 4) 3); lia. }
+  assert (Ek : (4 * (k / 4) = k)%nat).
+  { pose proof (Nat.div_mod k 4 ltac:(lia)) as D. lia. }
+  rewrite Eit.
+  destruct S1 as (L1 & _ & F1). destruct S2 as (L2 & _ & F2).
+  destruct (dcd_loop_total (pick inds idx1) (pick inds idx2) (k / 4) 0 ds) as (out & rest & E & _);
+    try (rewrite pick_length by assumption); try lia; try assumption.
+  eauto.
+Qed.
